@@ -157,6 +157,7 @@ class Expression(Term):
         dag = self._build(symbols)
         assert len(dag) > 0 and dag[-1].szout == 0 and not dag[0].args, 'Invalid DAG'
         providers: typing.Mapping[Term, typing.Deque[Term]] = {n.term: collections.deque([n.term]) for n in dag}
+        providers[dag[0].term] = collections.deque(Branch.fork(dag[0].term, dag[0].szout))  # the head can fan out too
 
         for node in dag[1:]:
             args = [providers[a].popleft() for a in node.args]
